@@ -165,3 +165,9 @@ Section Poll.
            end
     end.
 End Poll.
+
+(* variant kept to refute it: the forwarding node refuses ids found in its closed-tunnel tracker (filled when a forward of
+   that id finished on this node, never cleared) before consulting the routing table *)
+Definition forward_with_closed_guard (gstr : Type) enc dec decm of_addr to_addr keep
+           (closed : nat -> str -> bool) (c : cfg) (s : state gstr) (n : nat) (t : str) : fres :=
+  if closed n t then FNoRoute else forward_now gstr enc dec decm of_addr to_addr keep c s n t.
